@@ -352,7 +352,7 @@ def make_probe_fn(prop: str, runner: Runner, P: ModelCtx, rng: np.random.Generat
     mode = PROBES.get(prop)
     if mode is None:
         return None
-    per_episode = 3 if tier == "quick" else 10
+    per_episode = (6 if prop == "C05" else 3) if tier == "quick" else 10
     state = {"episode": -1, "n": 0}
     kind = A.MASK_KIND[runner.env_name]
     spec = runner.spec
@@ -365,7 +365,7 @@ def make_probe_fn(prop: str, runner: Runner, P: ModelCtx, rng: np.random.Generat
         if state["n"] >= per_episode:
             return []
         # probe the first states of an episode and then a random third of the later ones
-        if ev.t > 1 and rng.random() > 0.35:
+        if ev.t > 1 and rng.random() > (0.6 if prop == "C05" else 0.35):
             return []
         state["n"] += 1
         budget = 512 if mode == "all" else 8
